@@ -1,6 +1,6 @@
 #!/usr/bin/env python3
 """Regenerate coq/Gen/*.v from /repo's current headers (run on every check).
-Usage: gen.py [enc|float|lock|prefix|qsbr|asserts|compare|sizes|mutex|ptr|all]...   Exit 0 = all requested files generated.
+Usage: gen.py [enc|float|lock|prefix|qsbr|asserts|compare|sizes|mutex|ptr|fault|all]...   Exit 0 = all requested files generated.
 On a translator failure the file is replaced by a stub that does not define
 the functions, so the dependent bridge proofs fail (broken tie), and the
 failure text is written to build/gen_errors.json."""
@@ -581,12 +581,19 @@ def gen_asserts():
     return 'UNODB_DETAIL_ASSERT inventory of ' + ' '.join(ASSERT_HEADERS), body, None, None
 
 
+def gen_fault():
+    import fault2v
+    origin, body, imp = fault2v.gen_fault()
+    return origin, body, imp, fault2v.emit, 'own-emitter'
+
+
 TARGETS = {'enc': ('GenEncode.v', gen_encode), 'float': ('GenFloat.v', gen_float), 'lock': ('GenLockWord.v', gen_lock),
            'prefix': ('GenKeyPrefix.v', gen_prefix),
            'qsbr': ('GenQsbrState.v', gen_qsbr),
            'asserts': ('GenAsserts.v', gen_asserts),
            'compare': ('GenCompare.v', gen_compare), 'sizes': ('GenSizes.v', gen_sizes),
-           'mutex': ('GenMutexMethods.v', lambda: gen_shape('mutex')), 'ptr': ('GenPtrMethods.v', lambda: gen_shape('ptr'))}
+           'mutex': ('GenMutexMethods.v', lambda: gen_shape('mutex')), 'ptr': ('GenPtrMethods.v', lambda: gen_shape('ptr')),
+           'fault': ('GenFaultShape.v', gen_fault)}
 
 
 def main(argv):
@@ -601,7 +608,9 @@ def main(argv):
         path = os.path.join(GEN, fn)
         try:
             r = g()
-            if len(r) == 4:
+            if len(r) == 5:
+                r[3](path, r[0], r[1], r[2])
+            elif len(r) == 4:
                 emit_plain(path, r[0], r[1])
             elif len(r) == 3:
                 import shape2v
